@@ -7,8 +7,8 @@ import (
 	"errors"
 	"fmt"
 	"github.com/emersion/go-webdav/internal"
-	"os"
 	"net/url"
+	"os"
 	"strings"
 )
 
